@@ -131,6 +131,9 @@ def match_known(prop, v, known):
         req = set(k.get("requires", []))
         if req and not req.issubset(set(v.get("features", []))):
             continue
+        anyof = set(k.get("requires_any", []))
+        if anyof and not (anyof & set(v.get("features", []))):
+            continue
         forb = set(k.get("forbids", []))
         if forb & set(v.get("features", [])):
             continue
